@@ -25,3 +25,13 @@ func VerifC41Cast(batch arrow.RecordBatch, target *arrow.Schema) (arrow.RecordBa
 func VerifC41SerializeResult(schema *arrow.Schema, value any) (arrow.RecordBatch, error) {
 	return serializeResult(schema, value)
 }
+
+// VerifC41CollectorBatch returns the first batch the collector holds (nil when
+// empty): a record batch whose buffers come from the framework allocator, as
+// an externally resolved stream input's do. Ownership stays with the collector.
+func VerifC41CollectorBatch(o *OutputCollector) arrow.RecordBatch {
+	if len(o.batches) == 0 {
+		return nil
+	}
+	return o.batches[0].batch
+}
